@@ -73,13 +73,17 @@ def r10_1(ctx, rc):
         else:
             rc.ok({'order': key}, key=key)
     # the cache-file test precedes parent creation
+    from .guards import guards
+    direct = guards(ctx).m_cache_file_compare()
     w = Q.first_unguarded(
         sg, [sg.entry], lambda x: False, steps[1][2],
         edge_ok=lambda a, b, lab: not (
-            isinstance(lab, tuple) and len(lab) == 4 and lab[0] == 'F' and
-            isinstance(lab[1], ast.Call) and any(
-                isinstance(g, Func) and g.name == 'is_cache_file'
-                for g in ctx.prog.resolve_call(lab[1], lab[2]))))
+            isinstance(lab, tuple) and len(lab) == 4 and ((
+                lab[0] == 'F' and
+                isinstance(lab[1], ast.Call) and any(
+                    isinstance(g, Func) and g.name == 'is_cache_file'
+                    for g in ctx.prog.resolve_call(lab[1], lab[2]))) or
+                direct(lab[1], lab[2], lab[3]) == lab[0])))
     key = '%s: cache-file test precedes parents created' % F.qualname
     if w:
         rc.violation('protocol-order | ' + key,
